@@ -75,6 +75,8 @@ pub struct MemDb {
     pub log_touched: bool,
     /// return accounts with their bytecode attached (as some node databases do)
     pub attach_code: bool,
+    /// sleep this long in every read (lets entry-point callers arrive while a block is running)
+    pub delay_us: u64,
 }
 
 impl Clone for MemDb {
@@ -87,6 +89,7 @@ impl Clone for MemDb {
             touched: Mutex::new(Default::default()),
             log_touched: self.log_touched,
             attach_code: self.attach_code,
+            delay_us: self.delay_us,
         }
     }
 }
@@ -127,6 +130,9 @@ impl MemDb {
         );
     }
     fn check(&self, key: Key) -> Result<(), DbError> {
+        if self.delay_us > 0 {
+            std::thread::sleep(std::time::Duration::from_micros(self.delay_us));
+        }
         if self.log_touched {
             self.touched.lock().unwrap().insert(key.clone());
         }
